@@ -1,0 +1,32 @@
+//go:build verif
+
+package min
+
+// Contracts for the min plugin (C13, C01, C09), read by /verif's gvc (comment-only file).
+
+//@ func (g *gen) Add(name string, typs []types.Type) (r string, err error)
+//@ param typs: len=0,1,2,3
+//@ param name: classes=Ident
+
+//@ func (g *gen) Generate(typs []types.Type) (err error)
+//@ param typs: len=2
+
+//@ func (g *gen) genTwo(typ, typ2 types.Type) (err error)
+//@ param typ2: same=typ
+//@ emits: decls
+//@ serves: min len=2 same typ=typs[0] typ2=typs[1]
+//@ o-sig: (a, b $typ) (r $typ)
+//@ o-pure
+//@ o-ensures: [one-of-the-arguments] r == a || r == b
+//@ o-ensures: [ordered] (CmpTop(typ, a, b) < 0 ==> r == a) && (CmpTop(typ, a, b) >= 0 ==> r == b)
+
+//@ func (g *gen) genSlice(typ *types.Slice, typ2 types.Type) (err error)
+//@ emits: decls
+//@ serves: min len=2 notsame kind=Slice typ=typs[0] typ2=typs[1]
+//@ o-sig: (list []$elem(typ), def $elem(typ)) (r $elem(typ))
+//@ o-pure
+//@ o-ensures: [default-when-empty] len(list) == 0 ==> r == def
+//@ o-ensures: [an-element] len(list) > 0 ==> exists j int :: 0 <= j && j < len(list) && r == list[j]
+//@ o-ensures: [extremal] forall j int :: 0 <= j && j < len(list) ==> !(CmpTop(elem(typ), list[j], r) < 0)
+//@ o-loop: 1: invariant exists k int :: 0 <= k && k <= $i && m == old(list)[k]
+//@ o-loop: 1: invariant forall k int :: 0 <= k && k <= $i ==> !(CmpTop(elem(typ), old(list)[k], m) < 0)
